@@ -195,6 +195,8 @@ PROPS = {
             MULTIFETCH,
             # two independent replays of the scheduled-issuance scenarios (separate databases and node
             # objects, every time.Now() a fresh symbolic instant): no wall-clock value may reach the ledger
+            {"id": "api-isolation", "func": "VerifAPIIsolation", "pkg": "srv", "pkgname": "srv", "load": ["./srv"],
+             "params": {"quick": {}, "thorough": {}}, "must_cover": ["ran"], "max_witness_replays": 2},
             {"id": "syncloop-replays", "func": "VerifSyncLoop", "pkg": NODE, "pkgname": "node", "load": ["./node"],
              "params": {"quick": {"mode": 0}, "thorough": {"mode": 0}},
              "must_cover": ["completed", "dev-payout-at-2nd-block", "v204-mint"], "max_witness_replays": 3},
@@ -218,6 +220,10 @@ PROPS = {
              "params": {"quick": {"both": 1, "extras": 0, "assets": 2}, "thorough": {"both": 1, "extras": 0, "assets": 3}},
              "must_cover": ["paid", "capped", "uncapped"], "max_witness_replays": 4},
             SYNCBLOCK,
+            # the holder snapshots are persistent state: a (crash and) start of the daemon must leave them untouched
+            {"id": "syncloop-crash", "func": "VerifSyncLoop", "pkg": NODE, "pkgname": "node", "load": ["./node"],
+             "params": {"quick": {"mode": 0}, "thorough": {"mode": 0}},
+             "must_cover": ["crashed", "v202-activation", "v204-mint"], "max_witness_replays": 2},
         ],
         "wall": {"quick": 400, "thorough": 3000},
         "bounds": {"quick": "SnapshotPayouts at the first snapshot heights >= 2.0 and >= 2.0.2: (a) 2 addresses in both snapshots + 1 only-new + 1 only-old, 1 non-PEG asset (pEUR or the last ticker of the enumeration, pNGN), symbolic balances in both snapshots, symbolic rates incl. 0; (b) 3 eligible stakers, concrete rates; (c) 1 staker holding 2 non-PEG assets (pEUR, pXBT) with independent symbolic rates incl. 0 and a symbolic pUSD rate",
